@@ -17,8 +17,8 @@ RMul(a, b) == LET g1 == GCD(a[1], b[2])  g2 == GCD(b[1], a[2])
                  ELSE <<(a[1] \div g1) * (b[1] \div g2), (a[2] \div g2) * (b[2] \div g1)>>
 RInv(a) == <<a[2], a[1]>>
 RDiv(a, b) == RMul(a, RInv(b))
-RAdd(a, b) == RNorm(a[1] * b[2] + b[1] * a[2], a[2] * b[2])
-RSub(a, b) == RNorm(a[1] * b[2] - b[1] * a[2], a[2] * b[2])
+RAdd(a, b) == LET g == GCD(a[2], b[2]) IN RNorm(a[1] * (b[2] \div g) + b[1] * (a[2] \div g), (a[2] \div g) * b[2])
+RSub(a, b) == LET g == GCD(a[2], b[2]) IN RNorm(a[1] * (b[2] \div g) - b[1] * (a[2] \div g), (a[2] \div g) * b[2])
 RLeq(a, b) == a[1] * b[2] <= b[1] * a[2]
 RLt(a, b) == a[1] * b[2] < b[1] * a[2]
 REq(a, b) == a[1] * b[2] = b[1] * a[2]
